@@ -15,10 +15,8 @@ Lemma gen_loop_guard : forall mt n,
     exists v, K_worker.loop_guard tt (optv mt) (PInt n) = Ok v tt /\ truth v = guard mt n.
 Proof.
   intros [m|] n; unfold K_worker.loop_guard, guard; cbn.
-  - destruct (m =? 0) eqn:E; cbn.
-    + exists (PInt m). split; [reflexivity|]. cbn. rewrite E. reflexivity.
-    + exists (PBool (n <? m)). split; reflexivity.
-  - exists (PBool true). split; reflexivity.
+  - destruct (m =? 0) eqn:E; cbn; eexists; (split; [reflexivity|]); cbn; rewrite ?E; cbn; lia.
+  - eexists. split; reflexivity.
 Qed.
 
 Lemma gen_exit_status : forall mt n,
@@ -71,6 +69,11 @@ Proof.
   intros [m|]; unfold K_worker.maxmem_default, or_default; cbn; [|reflexivity].
   destruct (m =? 0); reflexivity.
 Qed.
+
+Lemma gen_do_exit_code : forall (recorded : option Z) (exc : bool),
+    K_worker.do_exit_code tt (optv recorded) (if exc then PBool true else PNone) =
+    Ok (PInt (Worker.do_exit_code recorded exc)) tt.
+Proof. intros [c|] [|]; reflexivity. Qed.
 
 Lemma gen_ensure_test : forall completed value,
     K_worker.ensure_test tt (PInt completed) (PInt value) =
@@ -885,7 +888,8 @@ Proof.
   - unfold p_ack. destruct (negb (in_cache s)); [exact Hs|].
     destruct (cancelled s && has_send_ack pc); [exact Hs|].
     destruct (has_accept_cb pc && r); cbn [fst worker_pid]; right; f_equal; exact He.
-  - unfold p_set. destruct (negb (in_cache s)); exact Hs.
+  - unfold p_set. destruct (negb (in_cache s)); [exact Hs|].
+    destruct (is_ready s); exact Hs.
   - exact Hs.
 Qed.
 
@@ -996,3 +1000,19 @@ Lemma one_ready_per_execution c q :
   puts (exec_events c q) = [ready_msg c q (final_res (q_beh q))] /\
   runs (exec_events c q) = 1%nat.
 Proof. split; [apply puts_exec|apply runs_exec]. Qed.
+
+(* ------------------------------------------------------------------ *)
+(* the status the worker process exits with (Worker.__call__ / _do_exit)  *)
+Theorem call_status_recycle c N ins :
+  maxtasks c = Some N -> 1 <= N ->
+  (call_status (w_exit c ins) = EX_RECYCLE <-> w_exit c ins = XReturn EX_RECYCLE).
+Proof.
+  intros HN H1. destruct (workloop_quota c N ins HN H1) as (_ & _ & Hcode & _).
+  destruct (w_exit c ins) as [code|code| |] eqn:E; cbn; split; intros H;
+    try discriminate; try (inversion H; subst; reflexivity).
+Qed.
+
+(* a SystemExit raised by the receive (sentinel, EOF, broken pipe) ends the process with
+   status EX_OK whatever code it carried: the wrapper around sys.exit never saw it *)
+Theorem call_status_sysexit code : call_status (XSysExit code) = EX_OK.
+Proof. reflexivity. Qed.
